@@ -12,7 +12,9 @@ LEVEL_TEXT = (
     "that succeeded and net of the record it replaced; the empty-store reset does not subtract a stale value. Five "
     "instances are unbalanced today; they are genuine (the property text names them) and a repair needs the Cache trait to "
     "report replaced/removed sizes, so they are recorded as known findings. The balanced ones (delete, remove, the sweep's "
-    "own remove_if) are guarded. Not decided: the behavioural form (a live key disappearing)."
+    "own remove_if) are guarded, including that what is subtracted is the same measure (Record::len) that was added. R2: the "
+    "store's remove_if selects an entry for removal exactly when the caller's predicate accepted it (the sweep's predicate "
+    "picks one victim: nothing else may go). Not decided: the behavioural form (a live key disappearing)."
 )
 ASSUMPTIONS = ["content-effect table of the Cache methods (rules/c15.py EFFECTS), read off MemoryStore's bodies"]
 
@@ -70,6 +72,8 @@ def r1(ctx):
         paths = I.run(b, [P(n) for n in argn])
         rep.evaluations += len(paths)
         nm = "sweep" if (b.path == sweep.path and b.impl_trait is None) else b.name
+        sweep_subs = [0]
+        saw_sweep_remove_if = [False]
         for p in paths:
             calls = [e for e in p.events if e.kind == "call"]
             inner = [(i, e) for i, e in enumerate(calls) if e.name.startswith(CACHE + "::") or e.name.startswith(IMPLD + "::")]
@@ -111,17 +115,17 @@ def r1(ctx):
                         # plain pass-through: callers get the removed records and must account them (the sweep does)
                         rep.ok("%s:remove_if:pass-through" % nm, "returns the removed records to the caller", b.loc())
                         continue
-                    removed_some = any(isinstance(c, tuple) and c[0] == "discr" and "cbarg" in repr(c) and truth == 1 for c, truth, _s, _at in p.state.pc)
+                    saw_sweep_remove_if[0] = True
+                    # subtractions made for records the inner remove_if handed back (inside whatever callback / loop walks
+                    # the result: `match` on each Option, `flatten()`, `if let Some`): each must be that record's size
+                    after = [s_ for j_, s_ in subs if j_ > i]
+                    for_removed = [s_ for s_ in after if any(isinstance(x, tuple) and x and x[0] == "cbarg" for x in atoms(s_.args[1])) or e.result in atoms(s_.args[1])]
+                    sweep_subs[0] += len(for_removed)
+                    for a_ in for_removed:
+                        check_measure(ctx, rep, "%s:remove_if" % nm, a_.args[1], b)
                     removed_none = any(isinstance(c, tuple) and c[0] == "discr" and "cbarg" in repr(c) and truth == 0 for c, truth, _s, _at in p.state.pc)
-                    after = [s for j, s in subs if j > i]
-                    if removed_some:
-                        ok = len(after) >= 1 and all(any(isinstance(x, tuple) and x[0] == "cbarg" for x in atoms(a_.args[1])) for a_ in after)
-                        rep.check(ok, "%s:remove_if:removed-subtracted" % nm, "each evicted record's size subtracted", "the sweep does not subtract the size of each evicted record", b.loc())
-                        if ok:
-                            for a_ in after:
-                                check_measure(ctx, rep, "%s:remove_if" % nm, a_.args[1], b)
-                    elif removed_none:
-                        rep.check(not after, "%s:remove_if:none-removed" % nm, "nothing subtracted for an empty slot", "the sweep subtracts for a slot that removed nothing", b.loc())
+                    if removed_none and not any(isinstance(c, tuple) and c[0] == "discr" and "cbarg" in repr(c) and truth == 1 for c, truth, _s, _at in p.state.pc):
+                        rep.check(not for_removed, "%s:remove_if:none-removed" % nm, "nothing subtracted for an empty slot", "the sweep subtracts for a slot that removed nothing", b.loc())
                 elif m == "flush":
                     accounted = any(j > i for j, _ in subs) or any(c.name.endswith("::store") and tform(c.args[0]) == USAGE for c in calls)
                     rep.check(accounted, "%s:flush:not-accounted" % nm, "flush adjusts the usage", "flush empties (or schedules the emptying of) the inner store but the usage counter is left unchanged: after 'flush' the policy still believes the old content is stored and evicts live items of a workload that fits under the limit", b.loc())
@@ -138,7 +142,50 @@ def r1(ctx):
                 stale = any(isinstance(x, tuple) and x[0] == "call" and x[1].endswith("fetch_add") for x in atoms(arg)) or any(isinstance(x, tuple) and x[0] == "call" and x[1].endswith("fetch_sub") for x in atoms(arg))
                 if stale:
                     rep.bad("%s:reset-subtracts-stale-value" % nm, "when the store is empty the usage is 'reset' by subtracting a local copy read earlier (the value returned by fetch_add, i.e. the usage *before* this store was added, possibly changed by other threads since): the counter does not return to its initial value and can wrap below zero", loc_s(s.span))
+        if saw_sweep_remove_if[0]:
+            rep.check(sweep_subs[0] > 0, "%s:remove_if:removed-subtracted" % nm, "each evicted record's size subtracted", "the sweep does not subtract the size of each evicted record", b.loc())
     return rep
 
 
-RULES = [("C15.R1", r1)]
+def r2(ctx):
+    rep = Report("C15.R2", "the store's remove_if removes exactly what the caller's predicate accepted (the sweep's victim and nothing else)", floor=2)
+    f = ctx.facts
+    b = f.one(ms("remove_if"))
+    rep.analysed(b)
+    paths = store_interp(f, loop_bound=1).run(b, [P("self"), P("f")])
+    rep.evaluations += len(paths)
+    n_pred = n_sel = 0
+    for p in paths:
+        pred_calls = []
+        removed_before = False
+        for e in p.events:
+            if e.kind == "map" and (e.extra.get("removes") or e.name in ("remove", "remove_if")):
+                removed_before = True
+            if e.kind == "call" and (e.name.endswith("FnMut::call_mut") or e.name.endswith("FnOnce::call_once") or e.name.endswith("Fn::call") or e.name == "<value>") and e.args:
+                a0 = tform(e.args[0])
+                if P("f") in atoms(a0) or a0 == P("f") or (isinstance(a0, tuple) and a0 and a0[0] == "captured"):
+                    pred_calls.append(e)
+                    n_pred += 1
+            sel = None
+            if e.kind == "callback-return" and e.name.split("::")[-1] in ("filter", "retain", "take_while", "skip_while", "filter_map", "position", "any", "all", "find"):
+                sel = e.args[0]
+            elif e.kind == "call" and e.name.endswith("Vec::push") and not removed_before and "removed" not in repr(tform(e.args[1]) if len(e.args) > 1 else ""):
+                sel = 1  # a key put on the to-remove list (pushes after the first removal collect results)
+            if sel is None:
+                continue
+            n_sel += 1
+            last = pred_calls[-1] if pred_calls else None
+            if last is None:
+                ok = False
+            elif tform(sel) == last.result:
+                ok = True
+            elif isinstance(sel, int):
+                ok = bool_fact(p, last.result) is bool(sel)
+            else:
+                ok = False
+            rep.check(ok, "remove_if:selects-what-the-predicate-accepts", "an entry is selected for removal exactly when the caller's predicate said so", "MemoryStore::remove_if selects an entry by %s, not by the caller's predicate alone: the eviction sweep (whose predicate picks one victim) removes other items too — live items are evicted without memory pressure" % short(sel, 80), b.loc())
+    rep.check(n_pred > 0 and n_sel > 0, "remove_if:consults-predicate", "the predicate is consulted (%d calls, %d selections)" % (n_pred, n_sel), "MemoryStore::remove_if never consults its predicate / selects nothing through it (%d calls, %d selections)" % (n_pred, n_sel), b.loc())
+    return rep
+
+
+RULES = [("C15.R1", r1), ("C15.R2", r2)]
